@@ -82,12 +82,12 @@ Proof.
   intros I.
   destruct l as [| | |c|c|]; cbn [step].
   - (* LStart *)
-    dcase (v_started s) Hst; [exact I|]. pose proof I as [I1 I2 I3 I4 I5 I6 I7 I8 I9].
-    destruct (I1 Hst) as [Hl [Hs [Hd Hc]]].
+    dcase (v_started s && negb (v_done s)) Hst; [exact I|].
+    pose proof I as [I1 I2 I3 I4 I5 I6 I7 I8 I9].
     constructor; cbn; intros; auto; try discriminate; try congruence.
     + destruct (v_kind s); [discriminate|reflexivity].
     + rewrite H. reflexivity.
-    + rewrite Hc in H. destruct c; discriminate.
+    + eapply I9; eauto.
   - (* LConnect *)
     dcase (v_listening s) Hl; pose proof I as [I1 I2 I3 I4 I5 I6 I7 I8 I9].
     + assert (Hns : v_stopreq s = false)
